@@ -2,7 +2,7 @@
 import base64, collections, json, os, random, re, sys
 from vf.runner import run_check, Violation
 b64 = lambda b: base64.b64encode(b).decode()
-TRIG = b"x = set([1])\n"; NOTRIG = b"x = 1\n"
+TRIG = b"# header\nx = set([1])\n"; NOTRIG = b"# header\nx = 1\n"   # the fixable construct sits on line 2 in both modes
 SAST_SRC = b"import random\nrandom.random()\n"
 
 def gmatch(pat, s):
@@ -38,13 +38,13 @@ def tree(rnd):
             name = rnd.choice(("a", "b", "mod", "util", "x_y")) + str(k) + rnd.choice((".py", ".py", ".py", ".txt", ".pyi"))
             files[(d + "/" if d else "") + name] = rnd.random() < 0.8
     return files
-def patterns(rnd, files):
+def patterns(rnd, files, line_no):
     rels = sorted(files)
     def one():
         f = rnd.choice(rels); parts = f.split("/")
         k = rnd.choice(("lit", "dir", "ext", "star", "q", "cls", "line", "deep"))
         return {"lit": f, "dir": (parts[0] + "/*") if len(parts) > 1 else "*.py", "ext": "*" + os.path.splitext(f)[1], "star": "*" + parts[-1][1:], "q": f[:-4] + "?" + f[-3:], "cls": f[:-4] + "[0-9]" + f[-3:],
-                "line": f + ":1", "deep": "*/" + parts[-1]}[k]
+                "line": f + ":" + str(line_no), "deep": "*/" + parts[-1]}[k]
     return [one() for _ in range(rnd.randint(1, 3))]
 
 def plan(tier, seed):
@@ -52,8 +52,8 @@ def plan(tier, seed):
     n = 60 if tier == "quick" else 800
     for k in range(n):
         files = tree(rnd); sast = rnd.random() < 0.35
-        inc = patterns(rnd, files) if rnd.random() < 0.5 else None
-        exc = patterns(rnd, files) if rnd.random() < 0.6 else None
+        inc = patterns(rnd, files, 2) if rnd.random() < 0.5 else None   # an include with :line restricts the file to that line (C13): name the trigger line
+        exc = patterns(rnd, files, 1) if rnd.random() < 0.6 else None   # an exclude with :line must not exclude the file: name a line without a trigger
         fs = {}; 
         for rel, trig in files.items():
             fs[rel] = b64((SAST_SRC if sast else TRIG) if trig else NOTRIG)
